@@ -45,7 +45,9 @@ class DEDeme(AbstractDeme):
         epoch_counter = 0
         metaepoch_generations = []
         while epoch_counter < self._generations:
-            offspring = self._de.run(self.current_population)
+            # Each generation is bred from the one before it (the first one from the current population).
+            parents = metaepoch_generations[-1] if metaepoch_generations else self.current_population
+            offspring = self._de.run(parents)
 
             epoch_counter += 1
             metaepoch_generations.append(offspring)
